@@ -189,6 +189,32 @@ def c_resample_circuit(ctx, args):
     return None
 
 
+def c_povm_samples(ctx, args):
+    """every sample of one povm() call is a NEW state: the computational basis state taken backward through the circuit ONCE.  With fixed gates every sample is the same state
+    (= the gates applied backward one at a time to |0..0>), the samples are distinct objects, and changing one leaves the others alone -- kept in a list or consumed one by one"""
+    cls, N, prog, k, lazy = args
+    c = NP.build_circuit(N, prog, cls)
+    ref = pc.zero_state(N)
+    for ins in reversed(prog):
+        NP.mk_gate(ins[1]).backward(ref)
+    want = NP.oST(ref)
+    got = []
+    objs = []
+    for s_ in c.povm(k):
+        if lazy:
+            got.append(NP.oST(s_))            # read at once, then spoil it: a later sample must not be built on it
+            s_.rotate_by(NP.P(gen.rpauli(__import__('random').Random(N + len(got)), N, herm=True, nonzero=True)))
+        objs.append(s_)
+    if not lazy:
+        got = [NP.oST(s_) for s_ in objs]
+    if len({id(s_) for s_ in objs}) != k:
+        return {'kind': 'oracle', 'where': 'np:%s.povm yields the same object more than once' % cls, 'observed': len({id(s_) for s_ in objs}), 'expected': k, 'tags': ['povm']}
+    for j, g_ in enumerate(got):
+        if g_ != want:
+            return {'kind': 'oracle', 'where': 'np:%s.povm sample %d of %d is not the basis state taken backward through the circuit once' % (cls, j, k), 'observed': g_, 'expected': want, 'tags': ['povm']}
+    return None
+
+
 def c_chi2(ctx, args):
     """support only: distribution of random_clifford over the symplectic group for N=1 (6 classes) / N=2 (720 classes)"""
     N, nsamp, seed = args
@@ -277,7 +303,7 @@ def c_chi2_rows(ctx, args):
     return None
 
 
-CHECKS = {'resample_circuit': c_resample_circuit, 'chi2_rows': c_chi2_rows, 'chi2_product': c_chi2_product, 'pair': c_pair, 'clifford': c_clifford, 'maps_states': c_maps_states, 'resample': c_resample, 'chi2': c_chi2, 'coin_fair': __import__('props.C06', fromlist=['c_coin_fair']).c_coin_fair}
+CHECKS = {'povm_samples': c_povm_samples, 'resample_circuit': c_resample_circuit, 'chi2_rows': c_chi2_rows, 'chi2_product': c_chi2_product, 'pair': c_pair, 'clifford': c_clifford, 'maps_states': c_maps_states, 'resample': c_resample, 'chi2': c_chi2, 'coin_fair': __import__('props.C06', fromlist=['c_coin_fair']).c_coin_fair}
 
 
 def run(ctx):
@@ -297,6 +323,8 @@ def run(ctx):
         ctx.res.count('%s_%s' % (be, what))
     for it in range(int(20 * B)):
         do(ctx, 'resample', [rng.randint(1, 3), rng.randrange(10 ** 6)], nontrivial=('r', it))
+        Np = rng.randint(1, 4)
+        do(ctx, 'povm_samples', [['CliffordCircuit', 'Circuit'][it % 2], Np, [[0, gen.rgate(rng, ctx.model, Np, kinds=('gen', 'fwd', 'named'))] for _ in range(rng.randint(1, 5))], rng.randint(2, 4), it % 3 == 0], nontrivial=('pv', it))
         kind = ['CliffordCircuit', 'Circuit', 'brickwall', 'onsite', 'global'][it % 5]
         do(ctx, 'resample_circuit', [kind, 2 * rng.randint(1, 2), rng.randrange(10 ** 6), ''.join(rng.choice('FBP') for _ in range(rng.randint(2, 6)))], nontrivial=('rc', it))
     if not getattr(ctx, 'is_worker', False):
